@@ -186,6 +186,12 @@ class C16(Property):
         'bare BaseException such as KeyboardInterrupt); no SyntaxError, '
         'chained causes, notes or exception groups (excluded by the statement)',
         'character classes of re \\d, str.isspace and str.splitlines are regenerated from the running interpreter',
+        'the entry points keep their documented parameter names (from_exc_info(exc_type, exc_value, traceback), '
+        'from_traceback(tb, limit), print_exception(etype, value, tb, limit, file), from_string(tb_str)): they are also called '
+        'by keyword; an exception object whose __bool__ raises is not generated (the traceback module itself fails on it)',
+        'what a caller may do with a value it was handed: overwrite / empty / reorder the dicts, lists and Callpoints of '
+        'to_dict() results, of ParsedException.frames and of a TracebackInfo it does not read again; the next call on the same '
+        'input (same text; same exception through a new object or through an object the caller did not touch) is judged like the first',
         'the reference for a live exception is the traceback module asked about the same traceback object in the same '
         'state of the file system (before or after boltons); sys.tracebacklimit is unset or >= 1 and an explicit '
         'limit of print_exception is None or >= 1 (with no entry to show the traceback module omits the header line, '
